@@ -471,6 +471,11 @@ def check_slot_writers(cx, rule, prefix):
         for s in b.stmts():
             if s.kind == "assign" and s.lhs.p and s.lhs.fields()[-1:] in (["reader"], ["writer"]) and "Connection" in b.ty(s.lhs.l) and "MethodCall" not in b.ty(s.lhs.l):
                 hits.add(s.lhs.fields()[-1])
+            # a slot of the connection borrowed mutably in order to be stored into (`let slot = &mut conn.writer; *slot = Some(w)`)
+            if s.kind == "assign" and s.rv == "ref" and s.bk and "mut" in str(s.bk).lower() and s.rplace is not None and s.rplace.fields()[-1:] in (["reader"], ["writer"]) \
+               and "Connection" in b.ty(s.rplace.l) and "MethodCall" not in b.ty(s.rplace.l):
+                stores = [x for x in b.stmts() if x.kind == "assign" and tuple(x.lhs.p) == ("*",) and s.lhs.l in ref_chain(DefUse(b), x.lhs.l)]
+                if stores: hits.add(s.rplace.fields()[-1])
         if not hits: continue
         n += 1
         ok = b.path in allowed and hits <= allowed[b.path]
